@@ -397,6 +397,13 @@ func genSchema(r *rand.Rand) *schema {
 	return s
 }
 
+// dKey gives the n-th primary key of the join partner d: its keys lie inside the value range
+// of column i0, so that `a.i0 < b.k` separates rows without arithmetic on a nullable column
+// (NULL arithmetic is an evaluation error whose occurrence depends on which rows a plan evaluates).
+func (s *schema) dKey(n int) int64 {
+	return s.col("i0").Pool[0].I - 5 + int64(n)
+}
+
 func pkNames(s *schema) string {
 	var n []string
 	for _, c := range s.PK {
@@ -615,7 +622,7 @@ func genLeaf(r *rand.Rand, s *schema, allowSub bool) pred {
 			inner = " WHERE " + strings.ReplaceAll(genLeaf(r, s, false).Tpl, "{q}", "sq.")
 		}
 		if r.IntN(3) == 0 {
-			return pred{fmt.Sprintf("{q}i0 %sIN (SELECT sq.iv FROM {D} sq WHERE sq.k > %d)", not, r.IntN(8)), "subq-in-on-" + s.indexedAs(s.col("i0")) + "-int", s.col("i0")}
+			return pred{fmt.Sprintf("{q}i0 %sIN (SELECT sq.iv FROM {D} sq WHERE sq.k > %d)", not, s.dKey(r.IntN(8))), "subq-in-on-" + s.indexedAs(s.col("i0")) + "-int", s.col("i0")}
 		}
 		return pred{fmt.Sprintf("%s %sIN (SELECT sq.%s FROM {T} sq%s)", col, not, c.Name, inner), "subq-in" + on, c}
 	}
@@ -1150,7 +1157,7 @@ func genQuery(r *rand.Rand, s *schema, id int, syncTxs []uint64) *query {
 			case 2:
 				on = "a.i0 = b.iv AND a.s0 <> b.sv"
 			case 3: // non-equi, outer column on the left, inner primary key on the right
-				on = "a.i0 - (" + fmt.Sprint(s.col("i0").Pool[0].I) + ") " + iop + " b.k"
+				on = "a.i0 " + iop + " b.k"
 				q.Mods = "nonequi-"
 			case 4: // the same with a plain outer column against the inner indexed column
 				on = "a.i0 " + iop + " b.iv"
